@@ -314,7 +314,8 @@ def space_element(e):
     if isinstance(e, cs.State):
         return {"kind": "state", "stmt_id": scalar(e.stmt_id), "state_id": scalar(e.state_id),
                 "symbol_or_state": scalar(e.symbol_or_state), "state_type": scalar(e.state_type),
-                "data_type": scalar(e.data_type), "value": scalar(e.value),
+                # State.to_dict stores str(value) by design
+                "data_type": scalar(e.data_type), "value": e.value if isinstance(e.value, str) else str(e.value),
                 "fields": _fields(e.fields),
                 "array": [as_set(a) if isinstance(a, (set, list, tuple, np.ndarray)) else scalar(a) for a in e.array],
                 "tangping_flag": scalar(e.tangping_flag), "tangping_elements": as_set(e.tangping_elements),
@@ -349,7 +350,8 @@ def param_mapping(lst):
         out.append({"arg_index_in_space": scalar(p.arg_index_in_space), "arg_state_id": scalar(p.arg_state_id),
                     "arg_source_symbol_id": scalar(p.arg_source_symbol_id), "arg_access_path": access_path(p.arg_access_path),
                     "parameter_symbol_id": scalar(p.parameter_symbol_id), "parameter_type": scalar(p.parameter_type),
-                    "parameter_access_path": None if pap is None else access_path([pap])[0],
+                    # "no path" is None when saved and the default AccessPoint() when loaded
+                    "parameter_access_path": [0, "", -1] if pap is None else access_path([pap])[0],
                     "is_default_value": scalar(p.is_default_value)})
     return out or EMPTY
 
@@ -365,6 +367,9 @@ def def_use_summary(s):
 
 
 def method_summary(s):
+    """The six symbol->indexes maps, the dynamic call statements and external_symbol_to_state are content;
+    raw_to_new_index / index_to_default_value are content only for the indexes the maps refer to (that is all
+    to_dict() writes: one (key, index, new_index[, default]) tuple per referenced index)."""
     if s is None:
         return EMPTY
     cs, DataModel, Row = _lian()
@@ -374,12 +379,25 @@ def method_summary(s):
 
     def dd(d):
         return {skey(k): (as_set(v) if not isinstance(v, (int, float, np.integer, np.floating)) else scalar(v)) for k, v in d.items()}
-    return {"key": scalar(key), "parameter_symbols": dd(s.parameter_symbols),
-            "defined_external_symbols": dd(s.defined_external_symbols),
-            "used_external_symbols": dd(s.used_external_symbols), "return_symbols": dd(s.return_symbols),
-            "key_dynamic_content": dd(s.key_dynamic_content), "dynamic_call_stmts": as_set(s.dynamic_call_stmts),
-            "this_symbols": dd(s.this_symbols), "external_symbol_to_state": dd(s.external_symbol_to_state),
-            "raw_to_new_index": dd(s.raw_to_new_index), "index_to_default_value": dd(s.index_to_default_value)}
+    maps = {n: dd(getattr(s, n)) for n in ("parameter_symbols", "defined_external_symbols", "used_external_symbols",
+                                           "return_symbols", "key_dynamic_content", "this_symbols")}
+    referenced = set()
+    for m in maps.values():
+        for v in m.values():
+            if isinstance(v, list):
+                referenced.update(v)
+    param_idx = set()
+    for v in maps["parameter_symbols"].values():
+        if isinstance(v, list):
+            param_idx.update(v)
+    r2n = {skey(k): scalar(v) for k, v in s.raw_to_new_index.items()
+           if scalar(k) in referenced and scalar(v) != scalar(k) and scalar(v) != -1}
+    i2d = {skey(k): scalar(v) for k, v in s.index_to_default_value.items() if scalar(k) in param_idx and scalar(v) != -1}
+    out = {"key": scalar(key)}
+    out.update(maps)
+    out.update({"dynamic_call_stmts": as_set(s.dynamic_call_stmts), "external_symbol_to_state": dd(s.external_symbol_to_state),
+                "raw_to_new_index": r2n, "index_to_default_value": i2d})
+    return out
 
 
 def internal_callees(s):
